@@ -14,6 +14,7 @@
 From Coq Require Import ZArith NArith List Bool.
 From Mpc Require Import OT.Gf128 OT.Gf128Proof OT.Kos OT.KosProof OT.RunC15 Gen.Consts.
 Import ListNotations.
+From Mpc Require Gen.State Base.StateExpected Base.StateCheck Base.StatePkgs.
 Local Open Scope nat_scope.
 
 (* For all 128-bit operands: the Go limb decomposition mul128Generic (four
@@ -323,3 +324,16 @@ Theorem C15_consts :
    /\ Z.of_nat (K * chunkByteRows) = ot_chunkSize)%Z.
 Proof. exact c15_consts_ok. Qed.
 Print Assumptions C15_consts.
+
+(* STATE INVENTORY (finite obligation on the model regenerated from the source, checked by
+   computation).  The struct fields and package-level variables of the Go packages this
+   property is anchored in — ot — as emitted from /repo's current
+   source by harness/gen_state.go (Gen/State.v) are exactly those the models above were written
+   against (Base/StateExpected.v).  A new field or variable (a cache, a memo, a pool, a counter,
+   a changed field type) is state the models do not have: this obligation then breaks and the
+   property is no longer shown to hold until the change has been reviewed against the model. *)
+Theorem C15_state_inventory :
+  Mpc.Base.StateCheck.state_unchanged Mpc.Gen.State.state_inventory Mpc.Base.StateExpected.expected_state
+    Mpc.Base.StatePkgs.pkgs_C15 = true.
+Proof. vm_compute. reflexivity. Qed.
+Print Assumptions C15_state_inventory.
